@@ -58,8 +58,8 @@
 #define VG_BSR        BSR_OK(&vg_dec.bit_stream_reader)
 #define VG_CODE_OK    TREE_OK(vg_dec.code_tree, VG_CODE_LEN, VG_CODE_ML)
 #define VG_OFFSET_OK  TREE_OK(vg_dec.offset_tree, VG_OFFSET_LEN, VG_OFFSET_ML)
-#define VG_HL_OK      VG_HIST_OK(vg_dec.history_list)
-#define VG_STRUCT_OK  (VG_BSR && vg_dec.ringbuf_pos < RING_BUFFER_SIZE && VG_CODE_OK && VG_OFFSET_OK && VG_HL_OK)
+/* history list: every prev/next link is a valid index into history[256] by type (uint8_t), see pma_common.c.spec */
+#define VG_STRUCT_OK  (VG_BSR && vg_dec.ringbuf_pos < RING_BUFFER_SIZE && VG_CODE_OK && VG_OFFSET_OK)
 /* rebuild schedule of the format: trees are re-read after 1 KiB, 2 KiB, 4 KiB, 8 KiB and then every 4 KiB */
 #define VG_REM_MAX(s) ((s) == PM2_REBUILD_BUILD1 || (s) == PM2_REBUILD_BUILD2 ? (size_t) 1024 : \
                        (s) == PM2_REBUILD_BUILD3 ? (size_t) 2048 : (size_t) 4096)
